@@ -1,7 +1,7 @@
 (* Tree.v — treebandit.py (_TreeBandit).  The regression trees are an oracle: [leaf a x] is
    arm_to_tree[a].apply([x]) for the tree currently held for arm a. *)
 From Coq Require Import ZArith List Bool.
-From MW Require Import Num Assoc Rng CF Matrix Lin Nbr.
+From MW Require Import Num Assoc Rng Par CF Matrix Lin Nbr.
 Import ListNotations.
 
 Section Tree.
